@@ -52,6 +52,7 @@ def setup(rep, tier):
     rep.minimum('R10.9', 2)
     rep.minimum('R10.10', 1)
     rep.minimum('R10.11', 2)
+    rep.minimum('R10.12', 1)
 
 
 # ---------------------------------------------------------------- R10.1
@@ -788,7 +789,68 @@ def r10_11(rep, prog):
     return n
 
 
+# ------------------------------------------------------------------ R10.12
+def r10_12(rep, prog):
+    """projection decoder: the multistream decoder only delivers the decoded channels that occur in its mapping, and the
+    projection callback uses that index as the COLUMN of the demixing matrix.  So the identity mapping built at
+    initialisation must cover every column: its length must be the matrix's column count (the same expression, or
+    equality established by a dominating test)."""
+    fname = 'opus_projection_decoder_init'
+    if not prog.has_fn(fname):
+        rep.unresolved('R10.12', '%s: %s not found' % (prog.config, fname))
+        return 0
+    f = prog.fn(fname)
+    rep.functions.add(fname)
+    cf = cfgm.CFG(f)
+    inits = T.calls_to(cf, 'mapping_matrix_init')
+    inst = '%s:%s identity mapping covers every column of the demixing matrix' % (prog.config, fname)
+    if len(inits) != 1:
+        rep.unresolved('R10.12', inst + ': expected one mapping_matrix_init call')
+        return 0
+    cols = sx.strip(inits[0][2][2][2])
+
+    def resolve(e):
+        e = sx.strip(e)
+        if sx.kind(e) == 'local':
+            defs = decide.find_assign(f, e[1])
+            if len(defs) == 1:
+                return sx.strip(defs[0][1])
+        return e
+    cols_r = resolve(cols)
+    # the loop storing mapping[i] = i
+    stores = [(b, i, n) for b, i, n in cf.find(lambda n: n[0] == 'assign' and sx.kind(sx.strip_paren(n[1])) == 'idx'
+                                              and sx.key(sx.strip(sx.strip_paren(n[1])[2])) == sx.key(sx.strip(n[2])) and sx.kind(sx.strip(n[2])) == 'local')]
+    if len(stores) != 1:
+        rep.unresolved('R10.12', inst + ': identity mapping store not found (%d candidates)' % len(stores))
+        return 0
+    b, i, n = stores[0]
+    ik = sx.key(sx.strip(n[2]))
+    bound = None
+    for c, pol, gb in cfgm.guards_of(cf, b):
+        if c is not None and sx.kind(sx.strip_paren(c)) == 'bin' and sx.strip_paren(c)[1] == '<' and sx.key(sx.strip(sx.strip_paren(c)[2])) == ik and pol:
+            bound = sx.strip(sx.strip_paren(c)[3])
+            break
+    where = '%s:%s' % (f.file, sx.line(n))
+    if bound is None:
+        rep.unresolved('R10.12', inst + ': loop bound of the identity mapping not found', where)
+        return 0
+    bound_r = resolve(bound)
+    same = sx.key(bound_r) == sx.key(cols_r) or sx.show(bound_r) == sx.show(cols_r)
+    eq = False
+    if not same:
+        facts = T.stable_facts(cf, b, i)
+        kb, kc = sx.key(bound), sx.key(cols)
+        eq = any(a[0] == '==' and {a[1], a[2]} == {kb, kc} for a in facts)
+    if same or eq:
+        rep.holds('R10.12', inst, where, 'mapping length `%s` is the column count `%s`%s' % (sx.show(bound), sx.show(cols), '' if same else ' by a dominating equality test'))
+    else:
+        rep.violated('R10.12', inst, where, 'the mapping has `%s` entries but the matrix has `%s` = `%s` columns and no test equates them: with fewer output channels than decoded channels the columns beyond `%s` are decoded and dropped' %
+                     (sx.show(bound), sx.show(cols), sx.show(cols_r), sx.show(bound)), key=fname + ':mapping-covers-columns')
+    return 1
+
+
 def check(rep, prog, tier):
+    r10_12(rep, prog)
     r10_11(rep, prog)
     r10_10(rep, prog)
     r10_9(rep, prog)
